@@ -40,7 +40,7 @@ META = {
     'components_real': ['S3TapeCassette._get_id_prefixes / iter_recording_ids', 'S3BasicFacade.iter_keys last-modified predicate'],
     'components_stub': ['S3 bucket', 'clock'],
     'budgets': {'quick': {'seconds': 20}, 'thorough': {'seconds': 240}},
-    'required_probes': {'quick': ['grid_window'], 'thorough': ['grid_window', 'random_window', 'end_defaults_to_now', 'window_crosses_midnight_end_earlier_in_day', 'long_lived_cassette_lookup', 'random_order_window', 'interleaved_lookups_on_one_cassette']},
+    'required_probes': {'quick': ['grid_window'], 'thorough': ['grid_window', 'random_window', 'end_defaults_to_now', 'window_crosses_midnight_end_earlier_in_day', 'long_lived_cassette_lookup', 'random_order_window', 'interleaved_lookups_on_one_cassette', 'window_end_before_start', 'window_start_in_the_future']},
 }
 
 
@@ -166,13 +166,21 @@ def random_windows(tape, clock):
             a = T0 + datetime.timedelta(seconds=tape.draw(span // 60) * 60 + tape.choice([0, 0, 1, 59])) if tape.draw(3) else tape.choice(instants)
             if tape.draw(4) == 3:
                 now = max(instants[-1], a) + datetime.timedelta(seconds=tape.draw(span))
+                if tape.draw(4) == 3:
+                    # the start lies in the future of the reader (and of everything stored): an empty window
+                    a = max(instants[-1], a) + datetime.timedelta(seconds=3600 + tape.draw(span))
+                    now = a - datetime.timedelta(seconds=1 + tape.draw(3000))
+                    run.probe('window_start_in_the_future')
                 clock.set(now)
                 run.probe('end_defaults_to_now')
                 check_window(run, cas, recs, a, None, now, 'random/end=now', random_results=tape.draw(3) == 2)
             else:
                 b = a + datetime.timedelta(seconds=tape.draw(span // 60) * 60 + tape.choice([0, 0, 1])) if tape.draw(3) else tape.choice(instants)
                 if b < a:
-                    a, b = b, a
+                    if tape.draw(3) == 2:
+                        run.probe('window_end_before_start')      # an empty window: nothing may be returned
+                    else:
+                        a, b = b, a
                 now = T0 + datetime.timedelta(days=5)
                 clock.set(now)
                 if tape.draw(4) == 3:
